@@ -7,6 +7,7 @@ index_information() lists, no two covered documents may have equal index keys (a
 counts as null, an array contributes each of its elements); creating a unique index over
 duplicates must fail and leave no index behind.
 """
+import collections
 import copy
 import itertools
 import sys
@@ -24,54 +25,99 @@ RULE = ('history = 3-30 generated operations on one collection with unique index
         'before or after the data, also filters that tell ==-equal values apart ({b: {$type: '
         '"double"}}) together with updates that rewrite a value with an ==-equal one of another '
         'type (1 <-> 1.0); indexed fields take values from a tiny pool so that collisions '
-        'are frequent; every step is compared with the Lean model (outcome, _id sequence, index '
+        'are frequent; in half of the histories an index may carry every option at once - '
+        'expireAfterSeconds (0 s .. 10^6 s, float, numeric and non-numeric strings) on top of '
+        'unique / sparse / partial, on any key shape - while the indexed fields also hold dates '
+        'around the mocked clock and the clock moves, so that uniqueness is judged under '
+        'indexes that are TTL indexes too; '
+        'every step is compared with the Lean model (outcome, _id sequence, index '
         'names) and the uniqueness rule is evaluated directly on python\'s documents for every '
         'listed unique index; non-trivial = a write is rejected by an index and a later write '
         'succeeds under the same index; distinct = by hash of the history')
 ASSUMPTIONS = [
     'partial filter expressions are drawn from {c: {$exists: true}}, {b: {$gt: 1}}, {a: 1}, '
     '{b: {$type: "double"}} and evaluated in the oracle by a tiny independent evaluator',
-    'TTL-free histories; positional $ paths unmodelled',
+    'every step is followed by the harness\'s own read (the rule is judged on what find({}) shows '
+    'at the mocked clock, after the expiry pass); positional $ paths unmodelled',
 ]
 
 known_labels = {e['id'] for e in common.load_known(ID) if e.get('status') == 'known'}
+# how often the rule was exercised under an index that carries other options than `unique`
+option_stats = collections.Counter()
 
 TYPED = [1, 1.0, 2, 2.0]
+# expiry periods a TTL option may carry: short ones (documents do expire while the history
+# runs), long ones (nothing expires: the lock / reservation pattern), a float, a numeric string
+# and a non-numeric one (the code ignores it: nothing ever expires)
+PERIODS = [0, 1, 5, 10, 30, 3600, 10 ** 6, 5.5, '7', 'x']
 
 
 class Gen06(hist.HistGen):
     """the shared history generator plus what tells ==-equal documents apart: a partial filter
     on the BSON type of `b`, documents whose `b` is 1 / 1.0 / 2 / 2.0 and updates that rewrite
     `b` with such a value (an update 1 -> 1.0 is "not modified" for `_apply_update`, yet moves
-    the document into the index: the repaired finding partial-type-sensitive)"""
+    the document into the index: the repaired finding partial-type-sensitive).
+
+    In half of the histories (`combined`) an index may carry EVERY option at once: on top of
+    unique / sparse / partialFilterExpression also expireAfterSeconds (the index is then filed
+    as a TTL index too), on any of the key shapes; the indexed fields then also hold dates
+    around the mocked clock (they collide, and they expire under the short periods) and the
+    clock moves.  The uniqueness rule does not depend on what else an index is used for."""
+
+    combined = False
+
+    def date_value(self):
+        x = self.r.random()
+        if x < 0.85:
+            return self.date_near_now()
+        return [self.date_near_now(), self.date_near_now()]
 
     def create_index(self):
         op = super(Gen06, self).create_index()
         if op[2].get('unique') and self.r.random() < 0.3:
             op[2]['partialFilterExpression'] = {'b': {'$type': 'double'}}
+        if self.combined and self.r.random() < 0.4:
+            op[2]['expireAfterSeconds'] = self.r.choice(PERIODS)
         return op
 
     def new_doc(self):
         d = super(Gen06, self).new_doc()
         if self.r.random() < 0.3:
             d['b'] = self.r.choice(TYPED)
+        if self.combined:
+            for f in ('a', 'b'):
+                if self.r.random() < 0.2:
+                    d[f] = self.date_value()
         return d
 
     def op(self):
-        if self.r.random() < 0.1:
+        x = self.r.random()
+        if x < 0.1:
             d = self.some_doc()
             f = {'_id': copy.deepcopy(d['_id'])} if d and '_id' in d and self.r.random() < 0.6 \
                 else {}
             k = 'update_one' if f or self.r.random() < 0.5 else 'update_many'
             return [k, f, {'$set': {'b': self.r.choice(TYPED)}}, False]
+        if self.combined and x < 0.16:
+            # a write that moves a document onto a date another document may hold
+            d = self.some_doc()
+            f = {'_id': copy.deepcopy(d['_id'])} if d and '_id' in d and self.r.random() < 0.7 \
+                else {}
+            fld = self.r.choice(['a', 'b'])
+            if self.r.random() < 0.7:
+                return ['update_one', f, {'$set': {fld: self.date_value()}},
+                        self.r.random() < 0.3]
+            return ['replace_one', f, {fld: self.date_value()}, self.r.random() < 0.3]
         return super(Gen06, self).op()
 
 
 def histgen(rng, oids):
+    combined = rng.random() < 0.5
     hg = Gen06(rng, oids, weights=dict(
         insert_one=22, insert_many=8, update_one=14, update_many=6, replace_one=8,
         delete_one=4, delete_many=1, find=0, count=0, distinct=0, create_index=12,
-        drop_index=2, drop_indexes=1, drop=1), ttl=False)
+        drop_index=2, drop_indexes=1, drop=1, clock=5 if combined else 0), ttl=False)
+    hg.combined = combined
     hg.ug.malformed = 0.02
     hg.dollar_values = 0.03
     return hg
@@ -97,6 +143,8 @@ def probe(runner, op):
         if ix.get('unique'):
             info[name] = {'key': [k for k, _ in ix['key']], 'sparse': bool(ix.get('sparse')),
                           'pfe': ix.get('partialFilterExpression')}
+            if 'expireAfterSeconds' in ix:
+                info[name]['ttl'] = ix['expireAfterSeconds']
     return info
 
 
@@ -287,6 +335,12 @@ def oracle(history, steps):
 def nontrivial(history, steps):
     rejected = False
     for st in steps:
+        info = (st.extra or {}).get('probe') or {}
+        if any('ttl' in ix for ix in info.values()):
+            option_stats['steps_under_a_unique_index_that_is_ttl_too'] += 1
+            if st.out[0] == 'err' and st.out[1] in ('DuplicateKeyError', 'BulkWriteError') and \
+                    st.op[0] != 'create_index':
+                option_stats['writes_rejected_while_a_unique_ttl_index_is_listed'] += 1
         if st.out[0] == 'err' and st.out[1] in ('DuplicateKeyError', 'BulkWriteError') and \
                 st.op[0] != 'create_index' and (st.extra or {}).get('probe'):
             rejected = True
@@ -317,4 +371,5 @@ def run(ctx, proof, driver_ok):
         replayed += 1
     cov = eng.run(ctx.n(1000, 25000))
     cov['fixed_witnesses_replayed'] = replayed
+    cov['multi_option_indexes'] = dict(option_stats)
     return cov
